@@ -140,7 +140,7 @@ example : negCycleCert [((0 : Nat), (1 : Nat), (1 : Int)), (1, 2, -3), (2, 1, 1)
 
 /-- C11 `bellman_ford_correct` [C].  For every edge list (duplicates, self loops, negative weights,
 endpoints not even required to be in range), start `s < n` and optional target: if the mirror of
-`bellman_ford` does not answer UNBOUNDED then
+`bellman_ford` (detection round and predecessor-cycle guard) does not answer UNBOUNDED then
 * every finite entry of `dist` is the exact shortest-path distance, every infinite entry belongs to
   an unreachable node, and no negative cycle is reachable from `s` (so: a reachable negative
   cycle ⇒ UNBOUNDED);
@@ -167,9 +167,12 @@ theorem bellman_ford_correct (n : Nat) (E : List (Edge Int)) (s : Nat) (target :
   by_cases hany : E.any (relaxable st.dist) = true
   · simp [bfFinish, hany] at hnu
   · have hany' : E.any (relaxable st.dist) = false := by simpa using hany
+    by_cases hcyc : hasParCycle n st.par = true
+    · simp [bfFinish, hany', hcyc] at hnu
+    have hcyc' : hasParCycle n st.par = false := by simpa using hcyc
     have F := bfFinal_of_inv inv hany'
     have hdist : (bfFinish n E st target).dist = st.dist := by
-      simp only [bfFinish, hany']
+      simp only [bfFinish, hany', hcyc']
       cases target with
       | none => rfl
       | some t => simp only []; cases look st.dist t <;> rfl
@@ -187,20 +190,20 @@ theorem bellman_ford_correct (n : Nat) (E : List (Edge Int)) (s : Nat) (target :
       obtain ⟨b, hb, _⟩ := potential_lower_bound F.feas F.start0 hw
       obtain ⟨b', hb', hle⟩ := potential_walk F.feas hc b hb
       rw [hb] at hb'; cases hb'; omega
-    · intro ht; subst ht; simp [bfFinish, hany']
+    · intro ht; subst ht; simp [bfFinish, hany', hcyc']
     · intro t ht
       subst ht
       cases hd : look st.dist t with
       | none =>
         have hr : bfFinish n E st (some t) = ⟨.INFEASIBLE, st.dist, st.par, none, none⟩ := by
-          simp [bfFinish, hany', hd]
+          simp [bfFinish, hany', hcyc', hd]
         rw [hr]
         refine ⟨⟨fun _ => unreach t hd, fun _ => rfl⟩, ⟨fun h => (by cases h), fun h => absurd h (unreach t hd)⟩, ?_, ?_⟩
         · intro c h; cases h
         · intro p h; cases h
       | some c =>
         have hr : bfFinish n E st (some t) = ⟨.OPTIMAL, st.dist, st.par, reconIdx st.par (n + 1) t [], some c⟩ := by
-          simp [bfFinish, hany', hd]
+          simp [bfFinish, hany', hcyc', hd]
         rw [hr]
         have hreach : Reach E s t := ⟨c, F.real t c hd⟩
         refine ⟨⟨fun h => (by cases h), fun h => absurd hreach h⟩, ⟨fun _ => hreach, fun _ => rfl⟩, ?_, ?_⟩
